@@ -41,10 +41,16 @@ Proof. exact interval_paths_nonvacuous. Qed.
    in whatever mode the primitive left *)
 Theorem C12_unbracketed_leaks : unbracketed_leaks_stmt.
 Proof. exact unbracketed_leaks. Qed.
+
+(* the table's scope: outside interval.hpp no source file names a Boost interval primitive or a rounding-mode /
+   FP-environment setter (157 files scanned on every run) *)
+Theorem C12_no_other_rounding_sites : fpenv_foreign_sites = nil /\ 100 <= fpenv_files_scanned.
+Proof. exact no_foreign_fpenv_sites. Qed.
 End IntervalOps.
 
 Print Assumptions C12_env_preserved.
 Print Assumptions IntervalOps.C12_interval_ops_restore_mode.
 Print Assumptions IntervalOps.C12_interval_paths_nonvacuous.
 Print Assumptions IntervalOps.C12_unbracketed_leaks.
+Print Assumptions IntervalOps.C12_no_other_rounding_sites.
 Print Assumptions C12_leak_propagates.
